@@ -836,6 +836,42 @@ func (p *Prog) fieldOnlyInitialised(nt *types.Named, idx int) bool {
 }
 
 
+// fieldLateStore: a store to field idx of nt that does not address a struct
+// allocated in the same function (nil when fieldOnlyInitialised).
+func (p *Prog) fieldLateStore(nt *types.Named, idx int) ssa.Instruction {
+	var found ssa.Instruction
+	for _, fn := range p.AllRepoFuncs() {
+		if fn.Blocks == nil || found != nil {
+			continue
+		}
+		allInstrs(fn, func(in ssa.Instruction) {
+			st, isSt := in.(*ssa.Store)
+			if !isSt || found != nil {
+				return
+			}
+			fa, isFA := st.Addr.(*ssa.FieldAddr)
+			if !isFA || fa.Field != idx {
+				return
+			}
+			if n := namedOf(fa.X.Type()); n == nil || n.Obj() != nt.Obj() {
+				return
+			}
+			base := fa.X
+			for {
+				if f2, isFA := base.(*ssa.FieldAddr); isFA {
+					base = f2.X
+					continue
+				}
+				break
+			}
+			if _, isAlloc := base.(*ssa.Alloc); !isAlloc {
+				found = in
+			}
+		})
+	}
+	return found
+}
+
 // Deref: a call origin of a repository function with a body is replaced by
 // the origins of what the function returns for that result (parameters
 // bound to the caller's arguments), recursively; other origins are returned
